@@ -27,6 +27,10 @@ pub use will::Will;
 #[doc(hidden)]
 pub mod fuzzing;
 
+#[cfg(feature = "verif-hooks")]
+#[doc(hidden)]
+pub use mqtt_client::VerifRuntime;
+
 use de::Error as DeError;
 use ser::{Error as SerError, PubError as SerPubError};
 
